@@ -20,6 +20,7 @@ RULE = ('explicit-state breadth-first search over the real MemoryStore object: n
         'form that contains every field of the object. Typed stores are searched to a fixpoint, the mapper store (monotonic '
         'allocator) and a 3-state StoreManager product to a depth bound. After every transition every live index is read back and '
         'compared with the model. Non-trivial = distinct reachable states with at least two live indices.')
+DEEP_PROBES = ('far indices {0,9} and {17,130} (+300 thorough), one live slot at every index up to 1 700 (5 000), the index allocator under churn (163 840 / 1 064 960 allocations), 0.0 vs -0.0, same-size temporary map keys')
 ASSUMPTIONS = ['operations are issued where the operators issue them: read/write/delete only on added keys',
                'value alphabets of 2-3 values per type; indices {0,1,3} (plus 6 in thorough)']
 LEVEL_TEXT = ('Explicit-state model checking with state hashing of the real store object against a dictionary model; finite index '
